@@ -183,7 +183,9 @@ def is_greedy(spec, _depth=0) -> bool:
 
 # ------------------------------------------------------------------ value derivation
 
-TEXT_ALPHABET = "abcXYZ 019_-.,;:!?/\\'\"#<>=[]{}$|é中"
+# (the tail: characters that some line-oriented string helpers treat as line breaks or white space although the formats here
+# only give that meaning to "\n" / " ": CR, VT, FF, FS-RS, NEL, LS, PS, no-break space, BOM)
+TEXT_ALPHABET = "abcXYZ 019_-.,;:!?/\\'\"#<>=[]{}$|é中" + "\r\x0b\x0c\x1c\x1d\x1e\x85\u2028\u2029\xa0\ufeff\t"
 
 
 class Deriver:
